@@ -41,6 +41,9 @@ def _single_defs(fn):
                     count[n.id] = count.get(n.id, 0) + 1
                     if isinstance(s, ast.Assign) and len(s.targets) == 1 and t is n:
                         defs[n.id] = s.value
+                    elif isinstance(s, ast.Assign) and len(s.targets) == 1 and isinstance(t, ast.Tuple) and \
+                            isinstance(s.value, ast.Tuple) and len(t.elts) == len(s.value.elts) and n in t.elts:
+                        defs[n.id] = s.value.elts[t.elts.index(n)]      # `a, b = self._x, self._y`
                     elif isinstance(s, ast.Assign) and len(s.targets) > 1 and t is n:
                         # chained `local = self._field = {}`: the local is an alias of the field
                         attrs = [x for x in s.targets if isinstance(x, ast.Attribute)]
